@@ -75,6 +75,11 @@ func (c *Ctx) CheckModel(prefix, text string, doc ref.V, goDoc any, opts CheckOp
 		} else if !Enumerates(text) {
 			// (results of enumerating expressions may legitimately vary between calls)
 			differs = !SameOutcome(l, l2, false)
+			if l.Err != nil && l2.Err != nil {
+				// the model does not judge the text: several faults may be present,
+				// and which one is reported may vary between calls
+				differs = false
+			}
 		}
 		if differs {
 			c.Report(Violation{Rule: prefix + "/compiled-differs", Expr: text, Data: gen.Describe(goDoc), Got: ShowOut(l2), Want: ShowOut(l), Detail: "Compile+Expression.Search differs from Search", Features: opts.Features})
